@@ -123,14 +123,18 @@ def pick(cases, tier, rng):
     anchors = [c for c in cases if c["root"] == "in" and all(s == "ok" for s in c["st"])]
     rest_in = [c for c in cases if c["root"] == "in" and not all(s == "ok" for s in c["st"])]
     other = [c for c in cases if c["root"] != "in"]
-    return anchors + vlib.sample(rest_in, 2600, rng) + vlib.sample(other, 700, rng)
+    return anchors + vlib.sample(rest_in, 3400, rng) + vlib.sample(other, 900, rng)
 
 
 def run(tier):
     rep = Report(PID, tier, "model_checking")
     rng = random.Random(vlib.seed())
     # G
-    g = tlc("mc/MC_Batch", workers=8, timeout=3000, env={"MAXFAULTY": 2}, xmx="8g")
+    try:
+        maxf = int(os.environ.get("VERIF_C11_MAXFAULTY", "2" if tier == "quick" else "3"))
+    except ValueError:
+        maxf = 2
+    g = tlc("mc/MC_Batch", workers=8, timeout=3000, env={"MAXFAULTY": maxf}, xmx="8g")
     tlc_ok(g, "MC_Batch (enumeration + internal theorems of the model)")
     cases = g.tagged("CASE")
     if len(cases) < 20000:
@@ -168,7 +172,7 @@ def run(tier):
     for n in need:
         if cov[n] < floor:
             raise vlib.ToolError("vacuous run: only %d cases cover %s" % (cov[n], n))
-    if nobs < (2500 if tier == "quick" else 50000):
+    if nobs < (2500 if tier == "quick" else 50000 if maxf <= 2 else 100000):
         raise vlib.ToolError("vacuous run: only %d observations judged" % nobs)
     if stats["world:mem"] < nobs // 10 or stats["obs_with_faulty_all_reported"] < nobs // 10 or stats["obs_with_expected_outputs_all_present"] < nobs // 4:
         raise vlib.ToolError("vacuous run: %s" % dict(stats))
@@ -187,7 +191,7 @@ def run(tier):
             "fault_kinds_covered": {k: cov["kind:" + k] for k in KINDS},
             "cases_by_number_of_faulty_files": {k[len("faulty_files:"):]: v for k, v in cov.items() if k.startswith("faulty_files:")},
             "fail_fast_cases": cov["failfast:True"],
-            "max_assigned_faults_per_case": 2,
+            "max_assigned_faults_per_case": maxf,
         },
         "coverage_by_dimension": {k: v for k, v in sorted(cov.items()) if not k.startswith("kind:") and not k.startswith("faulty_files:")},
         "expected_outputs_checked": stats["expected_outputs"],
@@ -204,7 +208,7 @@ def run(tier):
 
 
 ASSUMPTIONS = [
-    "bounded universe: 5 Lua files (top level, nested .luau, `my file.v2.lua`, `%C3%A9.lua` = e-acute, inside a directory named d.lua), 4 non-Lua files, at most 2 assigned faults per tree; files outside the input are healthy bystanders",
+    "bounded universe: 5 Lua files (top level, nested .luau, `my file.v2.lua`, `%C3%A9.lua` = e-acute, inside a directory named d.lua), 4 non-Lua files, at most 2 (quick) / 3 (thorough) assigned faults per tree (a blocking file can make further files faulty); files outside the input are healthy bystanders",
     "an unwritable destination is produced by a regular file in place of the destination's parent directory or by a non-empty directory at the destination (the checks run as root: permissions are not used); it is only assigned under an existing output directory; a directory given as input with an existing regular FILE as output makes every destination unwritable",
     "a faulty file counts as reported when some error message names its source path, its destination path or, for a blocked destination, the part of the destination path that could not be created",
     "a rule error is a require of a missing module with bundling configured (bundling is configured exactly in the cases that contain such a file); healthy files do not require each other",
